@@ -2,6 +2,7 @@
 From Coq Require Import Reals List ZArith Bool Lra.
 From Flocq Require Import Raux.
 From Alpaqa Require Import Num NumR Vec Prox ProxProofs SolverStatus SolverKernels SolverKernelsProofs DescentProofs.
+From Alpaqa Require Import Pantr KernelsGen KernelsGenEq.
 Import ListNotations.
 Local Open Scope R_scope.
 
@@ -66,3 +67,121 @@ Proof.
   - destruct (Rlt_bool_spec (10 + -4 + 1 / 2 * 1 * 4 + (1 + 10) * 0) 5) as [Hc|Hc]; [exfalso; lra|reflexivity].
   - constructor; [|constructor]. unfold in_box, lb_ok, ub_ok, box_ne; cbn. repeat split; lra.
 Qed.
+
+(* ======================================================================================================================
+   The same statements for the kernels GENERATED from the C++ on every run (gen/KernelsGen.v, translate/gen_kernels.py):
+   one definition per solver file and lambda, each proved equal to the hand kernel in KernelsGenEq.v — so a change of one
+   solver's copy of fbe / qub_violated / linesearch_violated / the halving or τ-update statements breaks the theorem of that
+   solver here. *)
+Theorem C05_gen_panoc_accelerated_step_descent : forall β tol cψ ch cpp cγ cgp cL nψ nh npp nγ ngp,
+  g_panoc_ls_violated false β tol cψ ch cpp cγ cgp cL nψ nh npp nγ ngp = false ->
+  g_panoc_fbe nψ nh npp nγ ngp
+    <= g_panoc_fbe cψ ch cpp cγ cgp - β * (1 - cγ * cL) / (2 * cγ) * cpp + (1 + Rabs (g_panoc_fbe cψ ch cpp cγ cgp)) * tol.
+Proof. exact gen_panoc_ls_accept_descent. Qed.
+Theorem C05_gen_panoc_linesearch_is_model : forall force β tol cψ ch cpp cγ cgp cL nψ nh npp nγ ngp,
+  g_panoc_ls_violated force β tol cψ ch cpp cγ cgp cL nψ nh npp nγ ngp
+  = ls_violated force β cγ cL (fbe cψ ch cpp cγ cgp) cpp (fbe nψ nh npp nγ ngp) tol.
+Proof. exact gen_panoc_ls_violated_eq. Qed.
+Theorem C05_gen_zerofpr_accelerated_step_descent : forall β tol cψ ch cpp cγ cgp cL nψ nh npp nγ ngp,
+  g_zerofpr_ls_violated false β tol cψ ch cpp cγ cgp cL nψ nh npp nγ ngp = false ->
+  g_zerofpr_fbe nψ nh npp nγ ngp
+    <= g_zerofpr_fbe cψ ch cpp cγ cgp - β * (1 - cγ * cL) / (2 * cγ) * cpp + (1 + Rabs (g_zerofpr_fbe cψ ch cpp cγ cgp)) * tol.
+Proof. exact gen_zerofpr_ls_accept_descent. Qed.
+Theorem C05_gen_zerofpr_linesearch_is_model : forall force β tol cψ ch cpp cγ cgp cL nψ nh npp nγ ngp,
+  g_zerofpr_ls_violated force β tol cψ ch cpp cγ cgp cL nψ nh npp nγ ngp
+  = ls_violated force β cγ cL (fbe cψ ch cpp cγ cgp) cpp (fbe nψ nh npp nγ ngp) tol.
+Proof. exact gen_zerofpr_ls_violated_eq. Qed.
+Theorem C05_gen_ocp_accelerated_step_descent : forall force β tol cψ cpp cγ cgp cL nψ npp nγ ngp,
+  g_ocp_ls_violated force β tol cψ cpp cγ cgp cL nψ npp nγ ngp = false ->
+  g_ocp_fbe nψ npp nγ ngp <= g_ocp_fbe cψ cpp cγ cgp - β * (1 - cγ * cL) / (2 * cγ) * cpp + (1 + Rabs (g_ocp_fbe cψ cpp cγ cgp)) * tol.
+Proof. exact gen_ocp_ls_accept_descent. Qed.
+Theorem C05_gen_panoc_safe_step_descent : forall lb ub γ γ' L tol (x grad xh gradxh : list R) (ψx ψxh : R),
+  0 < γ -> 0 < γ' ->
+  length lb = length xh -> length ub = length xh -> length gradxh = length xh ->
+  all_in_box lb ub xh ->
+  let p := snd (fst (proj_grad_step lb ub γ x grad)) in
+  let pp := vsqnorm p in let gp := vdot grad p in
+  g_panoc_qub_violated ψx ψxh gp L pp tol = false ->
+  let p' := snd (fst (proj_grad_step lb ub γ' xh gradxh)) in
+  g_panoc_fbe ψxh 0 (vsqnorm p') γ' (vdot gradxh p')
+    <= g_panoc_fbe ψx 0 pp γ gp - (1 - γ * L) / (2 * γ) * pp + (1 + Rabs ψx) * tol.
+Proof. exact gen_panoc_safe_step_descent. Qed.
+Theorem C05_gen_panoc_qub_is_model : forall ψx ψxh gp L pp tol, g_panoc_qub_violated ψx ψxh gp L pp tol = qub_violated ψx ψxh gp L pp tol.
+Proof. exact gen_panoc_qub_violated_eq. Qed.
+Theorem C05_gen_panoc_fbe_is_model : forall ψx hxh pp γ gp, g_panoc_fbe ψx hxh pp γ gp = fbe ψx hxh pp γ gp.
+Proof. exact gen_panoc_fbe_eq. Qed.
+Theorem C05_gen_zerofpr_safe_step_descent : forall lb ub γ γ' L tol (x grad xh gradxh : list R) (ψx ψxh : R),
+  0 < γ -> 0 < γ' ->
+  length lb = length xh -> length ub = length xh -> length gradxh = length xh ->
+  all_in_box lb ub xh ->
+  let p := snd (fst (proj_grad_step lb ub γ x grad)) in
+  let pp := vsqnorm p in let gp := vdot grad p in
+  g_zerofpr_qub_violated ψx ψxh gp L pp tol = false ->
+  let p' := snd (fst (proj_grad_step lb ub γ' xh gradxh)) in
+  g_zerofpr_fbe ψxh 0 (vsqnorm p') γ' (vdot gradxh p')
+    <= g_zerofpr_fbe ψx 0 pp γ gp - (1 - γ * L) / (2 * γ) * pp + (1 + Rabs ψx) * tol.
+Proof. exact gen_zerofpr_safe_step_descent. Qed.
+Theorem C05_gen_zerofpr_qub_is_model : forall ψx ψxh gp L pp tol, g_zerofpr_qub_violated ψx ψxh gp L pp tol = qub_violated ψx ψxh gp L pp tol.
+Proof. exact gen_zerofpr_qub_violated_eq. Qed.
+Theorem C05_gen_zerofpr_fbe_is_model : forall ψx hxh pp γ gp, g_zerofpr_fbe ψx hxh pp γ gp = fbe ψx hxh pp γ gp.
+Proof. exact gen_zerofpr_fbe_eq. Qed.
+Theorem C05_gen_pantr_safe_step_descent : forall lb ub γ γ' L tol (x grad xh gradxh : list R) (ψx ψxh : R),
+  0 < γ -> 0 < γ' ->
+  length lb = length xh -> length ub = length xh -> length gradxh = length xh ->
+  all_in_box lb ub xh ->
+  let p := snd (fst (proj_grad_step lb ub γ x grad)) in
+  let pp := vsqnorm p in let gp := vdot grad p in
+  g_pantr_qub_violated ψx ψxh gp L pp tol = false ->
+  let p' := snd (fst (proj_grad_step lb ub γ' xh gradxh)) in
+  g_pantr_fbe ψxh 0 (vsqnorm p') γ' (vdot gradxh p')
+    <= g_pantr_fbe ψx 0 pp γ gp - (1 - γ * L) / (2 * γ) * pp + (1 + Rabs ψx) * tol.
+Proof. exact gen_pantr_safe_step_descent. Qed.
+Theorem C05_gen_pantr_qub_is_model : forall ψx ψxh gp L pp tol, g_pantr_qub_violated ψx ψxh gp L pp tol = qub_violated ψx ψxh gp L pp tol.
+Proof. exact gen_pantr_qub_violated_eq. Qed.
+Theorem C05_gen_pantr_fbe_is_model : forall ψx hxh pp γ gp, g_pantr_fbe ψx hxh pp γ gp = fbe ψx hxh pp γ gp.
+Proof. exact gen_pantr_fbe_eq. Qed.
+Theorem C05_gen_panoc_init_gamma_times_L_constant : forall γ L, g_panoc_halve_gamma_init γ * g_panoc_halve_L_init L = γ * L.
+Proof. exact gen_panoc_halve_init_product. Qed.
+Theorem C05_gen_panoc_init_gamma_decreases : forall γ, 0 < γ -> 0 < g_panoc_halve_gamma_init γ < γ.
+Proof. exact gen_panoc_halve_init_decreases. Qed.
+Theorem C05_gen_panoc_ls_gamma_times_L_constant : forall γ L, g_panoc_halve_gamma_ls γ * g_panoc_halve_L_ls L = γ * L.
+Proof. exact gen_panoc_halve_ls_product. Qed.
+Theorem C05_gen_panoc_ls_gamma_decreases : forall γ, 0 < γ -> 0 < g_panoc_halve_gamma_ls γ < γ.
+Proof. exact gen_panoc_halve_ls_decreases. Qed.
+Theorem C05_gen_zerofpr_init_gamma_times_L_constant : forall γ L, g_zerofpr_halve_gamma_init γ * g_zerofpr_halve_L_init L = γ * L.
+Proof. exact gen_zerofpr_halve_init_product. Qed.
+Theorem C05_gen_zerofpr_init_gamma_decreases : forall γ, 0 < γ -> 0 < g_zerofpr_halve_gamma_init γ < γ.
+Proof. exact gen_zerofpr_halve_init_decreases. Qed.
+Theorem C05_gen_zerofpr_ls_gamma_times_L_constant : forall γ L, g_zerofpr_halve_gamma_ls γ * g_zerofpr_halve_L_ls L = γ * L.
+Proof. exact gen_zerofpr_halve_ls_product. Qed.
+Theorem C05_gen_zerofpr_ls_gamma_decreases : forall γ, 0 < γ -> 0 < g_zerofpr_halve_gamma_ls γ < γ.
+Proof. exact gen_zerofpr_halve_ls_decreases. Qed.
+Theorem C05_gen_pantr_bt_gamma_times_L_constant : forall γ L, g_pantr_halve_gamma_bt γ * g_pantr_halve_L_bt L = γ * L.
+Proof. exact gen_pantr_halve_bt_product. Qed.
+Theorem C05_gen_pantr_bt_gamma_decreases : forall γ, 0 < γ -> 0 < g_pantr_halve_gamma_bt γ < γ.
+Proof. exact gen_pantr_halve_bt_decreases. Qed.
+Theorem C05_gen_ocp_init_gamma_times_L_constant : forall γ L, g_ocp_halve_gamma_init γ * g_ocp_halve_L_init L = γ * L.
+Proof. exact gen_ocp_halve_init_product. Qed.
+Theorem C05_gen_ocp_init_gamma_decreases : forall γ, 0 < γ -> 0 < g_ocp_halve_gamma_init γ < γ.
+Proof. exact gen_ocp_halve_init_decreases. Qed.
+Theorem C05_gen_ocp_ls_gamma_times_L_constant : forall γ L, g_ocp_halve_gamma_ls γ * g_ocp_halve_L_ls L = γ * L.
+Proof. exact gen_ocp_halve_ls_product. Qed.
+Theorem C05_gen_ocp_ls_gamma_decreases : forall γ, 0 < γ -> 0 < g_ocp_halve_gamma_ls γ < γ.
+Proof. exact gen_ocp_halve_ls_decreases. Qed.
+Theorem C05_gen_panoc_tau_update_shrinks : forall τ factor τmin, 0 < factor < 1 -> 0 < τ -> 0 <= g_panoc_tau_update τ factor τmin < τ.
+Proof. exact gen_panoc_tau_update_shrinks. Qed.
+Theorem C05_gen_zerofpr_tau_update_shrinks : forall τ factor τmin, 0 < τ -> 0 <= g_zerofpr_tau_update τ factor τmin < τ.
+Proof. exact gen_zerofpr_tau_update_shrinks. Qed.
+Theorem C05_gen_ocp_tau_update_shrinks : forall τ factor τmin, 0 < τ -> 0 <= g_ocp_tau_update τ factor τmin < τ.
+Proof. exact gen_ocp_tau_update_shrinks. Qed.
+Theorem C05_gen_pantr_accept_nonincrease : forall pψ ph ppp pγ pgp cψ ch cpp cγ cgp qm tol Lγ thr,
+  qm < 0 -> 0 <= thr -> g_pantr_accept (g_pantr_ratio false pψ ph ppp pγ pgp cψ ch cpp cγ cgp qm tol Lγ) thr = true ->
+  g_pantr_fbe cψ ch cpp cγ cgp <= g_pantr_fbe pψ ph ppp pγ pgp + (1 + Rabs (g_pantr_fbe pψ ph ppp pγ pgp)) * tol.
+Proof. exact gen_pantr_accept_nonincrease. Qed.
+Theorem C05_gen_pantr_radius_is_model : forall (TP : trparams (T:=R)) q ρ old,
+  g_pantr_radius_clip (g_pantr_updated_radius q ρ old (tp_thr_good TP) (tp_thr_acc TP) (tp_rf_good TP) (tp_rf_acc TP) (tp_rf_rej TP))
+                      (tp_min_radius TP) = updated_radius TP q ρ old.
+Proof. exact gen_pantr_updated_radius_eq. Qed.
+Print Assumptions C05_gen_panoc_accelerated_step_descent.
+Print Assumptions C05_gen_zerofpr_safe_step_descent.
+Print Assumptions C05_gen_pantr_accept_nonincrease.
